@@ -396,6 +396,65 @@ def worker(args):
     return res
 
 
+def slow_subscriber_case(node, wd, out, seed):
+    """one subscriber with many keys stops reading its stream for 3 s while ALL its keys change (HTTP/2 flow control and the
+    server's per-connection queue fill up); once it reads again every key must still be announced - nothing may be dropped"""
+    import http.client
+    import urllib.parse
+    N = 300
+    g = grpcrig.GrpcClient(node.grpc_addr, wd, name="c10slow")
+    info = {"keys": N}
+    try:
+        g.open_stream("s", setup={"clientVersion": "Nacos-Java-Client:v2.2.0", "labels": {"source": "sdk", "module": "config"}, "tenant": ""}, report=[NOTIFY])
+        ids = ["c10slow-%d-%d-%s" % (seed, i, "k" * 220) for i in range(N)]
+
+        def publish_all(tag):
+            def th(part):
+                c = http.client.HTTPConnection("127.0.0.1", node.http_port, timeout=15)
+                for d in part:
+                    body = urllib.parse.urlencode({"dataId": d, "group": "DEFAULT_GROUP", "content": "%s-%s" % (tag, d[:20])})
+                    c.request("POST", "/nacos/v1/cs/configs", body, {"Content-Type": "application/x-www-form-urlencoded"})
+                    c.getresponse().read()
+            ts = [threading.Thread(target=th, args=(ids[k::6],)) for k in range(6)]
+            [t.start() for t in ts]
+            [t.join(60) for t in ts]
+        publish_all("v0")
+        for k in range(0, N, 50):
+            ctxs = [{"dataId": d, "group": "DEFAULT_GROUP", "tenant": "", "md5": md5("v0-%s" % d[:20])} for d in ids[k:k + 50]]
+            r = g.request("s", "ConfigBatchListenRequest", {"listen": True, "configListenContexts": ctxs})
+            if not r.get("ok") or r.get("result_code") != 200:
+                raise common.Inconclusive("slow-subscriber listen refused: %s" % str(r)[:200])
+            if (r.get("body") or {}).get("changedConfigs"):
+                raise common.Inconclusive("slow-subscriber: listener not in sync at subscribe")
+        t_stall = time.time()
+        g.cmd("stall_reads", ms=3000)
+        time.sleep(0.1)
+        publish_all("v1")
+        info["burst_s"] = round(time.time() - t_stall, 2)
+        deadline = t_stall + 3.0 + 6.0
+        got = set()
+        while time.time() < deadline and len(got) < N:
+            got = {(e.get("body") or {}).get("dataId") for e in g.events("push", "s") if e.get("type") == NOTIFY and e["t_recv"] >= t_stall}
+            time.sleep(0.1)
+        missing = [d for d in ids if d not in got]
+        info["notified"] = N - len(missing)
+        info["all_announced_after_s"] = round(time.time() - t_stall, 1)
+        out.evaluations += N
+        if missing:
+            out.violation("grpc/unnotified/burst-to-slow-subscriber", {"keys": N, "not_announced": len(missing), "first_missing": missing[0][:40], "reader_stalled_s": 3.0,
+                                                                        "waited_after_resume_s": 6.0, "pushes_received": len(got)})
+        else:
+            out.shape("grpc/notified/burst-of-%d-to-slow-subscriber" % N)
+    except common.Inconclusive as e:
+        info["inconclusive"] = str(e)[:300]
+    finally:
+        try:
+            g.stop()
+        except Exception:
+            pass
+    out.extra["slow_subscriber"] = info
+
+
 def grpc_part(out, wd, tier, seed):
     node = procrig.Node(wd, 1)
     lock = threading.Lock()
@@ -426,6 +485,7 @@ def grpc_part(out, wd, tier, seed):
             for s in res["samples"]:
                 if len(out.samples) < 10:
                     out.samples.append(s)
+        slow_subscriber_case(node, wd, out, seed)
         if not node.alive():
             raise common.Inconclusive("node died during the gRPC part: %s" % node.tail_log())
         out.extra["grpc_part"] = {"scenarios": n, "wall_s": round(time.time() - t0, 1), "bound_s": BOUND_S, "templates": [t[0] for t in T]}
